@@ -214,6 +214,7 @@ def r4_initialization(ctx):
 
 
 def run(ctx):
+    ctx.guard("C14.K17", "constructor fidelity", lambda: __import__("ctor").check_for(ctx, "C14", 17))
     ctx.guard("C14.R1", "constrain", lambda: r1_constrain(ctx))
     ctx.guard("C14.R3", "driver", lambda: r3_driver(ctx))
     ctx.guard("C14.R4", "initialization", lambda: r4_initialization(ctx))
